@@ -12,17 +12,16 @@ namespace Parmcb.C10
 open Parmcb
 
 /-- a line that ends with a newline loses exactly that newline -/
-theorem c10_strip_newline (l : List Char) : stripNewline (l ++ ['\n']) = l := by
-  sorry
+theorem c10_strip_newline (l : List Char) : stripNewline (l ++ ['\n']) = l :=
+  DimacsL.stripNewline_append_newline l
 
 /-- a final line WITHOUT a newline is left untouched (whether or not the file ends with a newline) -/
-theorem c10_strip_no_newline (l : List Char) (h : l.getLast? ≠ some '\n') : stripNewline l = l := by
-  sorry
+theorem c10_strip_no_newline (l : List Char) (h : l.getLast? ≠ some '\n') : stripNewline l = l :=
+  DimacsL.stripNewline_of_ne l h
 
 /-- the record of the defect: the pinned code removed the last character of such a line -/
 theorem c10_pinned_strip_counterexample :
-    stripLastPinned "e 1 3 35".toList = "e 1 3 3".toList ∧ stripNewline "e 1 3 35".toList = "e 1 3 35".toList := by
-  sorry
+    stripLastPinned "e 1 3 35".toList = "e 1 3 3".toList ∧ stripNewline "e 1 3 35".toList = "e 1 3 35".toList := by decide
 
 /-- how a graph is written down: `pre` comment lines, the problem line, and before the i-th edge line
 `between[i]` comment lines (missing entries = 0); vertices are 1-based; a weight equal to 1 may be omitted —
@@ -39,33 +38,38 @@ weight — wherever the comment lines are -/
 theorem c10_roundtrip (g : DGraph) (hg : ∀ e ∈ g.edges, e.1 < g.n ∧ e.2.1 < g.n)
     (pre post : Nat) (between : List Nat) :
     interp (render g pre between post) = some g := by
-  sorry
+  unfold interp render
+  rw [List.foldlM_append, List.foldlM_append, List.foldlM_append, DimacsL.foldlM_comments]
+  simp only [Option.bind_eq_bind, Option.bind_some, List.foldlM_cons, List.foldlM_nil, interpLine,
+    Option.pure_def]
+  rw [DimacsL.foldlM_edges between g.edges 0 _ (by simpa using hg)]
+  simp [DimacsL.foldlM_comments]
 
 /-- an edge naming an undeclared vertex raises an error -/
 theorem c10_undeclared (g : DGraph) (u v : Int) (w : Dec) (h : ¬ (1 ≤ u ∧ u ≤ g.n) ∨ ¬ (1 ≤ v ∧ v ≤ g.n)) :
-    interpLine g (.edge u v w) = none := by
-  sorry
+    interpLine g (.edge u v w) = none :=
+  DimacsL.interpLine_edge_bad g u v w h
 
 /-- … and then the whole read fails, whatever follows -/
 theorem c10_undeclared_read (ls₁ ls₂ : List DLine) (g : DGraph) (u v : Int) (w : Dec)
     (h₁ : interp ls₁ = some g) (h : ¬ (1 ≤ u ∧ u ≤ g.n) ∨ ¬ (1 ≤ v ∧ v ≤ g.n)) :
-    interp (ls₁ ++ [.edge u v w] ++ ls₂) = none := by
-  sorry
+    interp (ls₁ ++ [.edge u v w] ++ ls₂) = none :=
+  DimacsL.interp_fail ls₁ ls₂ g _ h₁ (DimacsL.interpLine_edge_bad g u v w h)
 
 /-- `has_loops` answers true exactly when some edge is a self-loop (arbitrary multigraphs) -/
-theorem c10_has_loops (g : Graph) : hasLoops g = true ↔ ∃ e, e < g.m ∧ g.src e = g.tgt e := by
-  sorry
+theorem c10_has_loops (g : Graph) : hasLoops g = true ↔ ∃ e, e < g.m ∧ g.src e = g.tgt e :=
+  DimacsL.hasLoops_iff g
 
 /-- `has_non_positive_weights` answers true exactly when some weight is ≤ 0 (arbitrary multigraphs) -/
-theorem c10_has_non_positive (g : Graph) : hasNonPositiveWeights g = true ↔ ∃ e, e < g.m ∧ g.weight e ≤ 0 := by
-  sorry
+theorem c10_has_non_positive (g : Graph) : hasNonPositiveWeights g = true ↔ ∃ e, e < g.m ∧ g.weight e ≤ 0 :=
+  DimacsL.hasNonPositiveWeights_iff g
 
 /-- `has_multiple_edges` answers true exactly when two different edges join the same vertex pair
 (loop-free multigraphs with endpoints in range) -/
 theorem c10_has_multiple (g : Graph) (hr : ∀ e, e < g.m → g.src e < g.n ∧ g.tgt e < g.n ∧ g.src e ≠ g.tgt e) :
     hasMultipleEdges g = true ↔
       ∃ e f, e < f ∧ f < g.m ∧
-        ((g.src e = g.src f ∧ g.tgt e = g.tgt f) ∨ (g.src e = g.tgt f ∧ g.tgt e = g.src f)) := by
-  sorry
+        ((g.src e = g.src f ∧ g.tgt e = g.tgt f) ∨ (g.src e = g.tgt f ∧ g.tgt e = g.src f)) :=
+  DimacsL.hasMultipleEdges_iff g hr
 
 end Parmcb.C10
